@@ -634,7 +634,9 @@ pub fn gen_case(label: &str, tier: &str, seed: u64, k: u64, o: &GenOpts) -> Case
         }
         // anchors 1e5 widths away from the origin: only the families that were clean there; clusters only with
         // anchors up to ~12 widths away (at 1e3 widths two panics were seen in ~15 000 inputs of 1000 generators)
-        let far_ok = matches!(family, "uniform" | "lattice" | "blattice" | "tiny" | "star" | "rows" | "gradient");
+        // (`rows` was in this list until the fifth session: a periodic input of 1 000 generators in rows, box 1 : 100 : 0.01,
+        // anchor 1e5 widths away, panicked in the thorough tier of C13 - finding F5; survey sizes had stopped at 200)
+        let far_ok = matches!(family, "uniform" | "lattice" | "blattice" | "tiny" | "star" | "gradient");
         let limit = if family == "mildcluster" { 50. } else { 2e3 };
         while !far_ok && (b.anchor / b.width).abs().max_element() > limit {
             b = if o.mild_box { mild_box(&mut r) } else { random_box(&mut r) };
